@@ -36,3 +36,54 @@ Example C03_example :
               (real_actions current_consts {| repl := "R"; nums := true; bools := true; ips := true; nss := true; eager := nil; re := None |} None) ex_tree)
   = shape_of ex_tree.
 Proof. vm_compute. reflexivity. Qed.
+
+(* ---------- text level ---------- *)
+From Coq Require Import List String Ascii.
+From Model Require Import JsonText Hash.
+From Proofs Require Import Utf8Facts StrCodec Codec ParseWf TextLevel.
+
+(* The codec: for every object whose strings are valid UTF-8, whose number literals are valid and
+   whose objects have no duplicate keys, the parser reads the printed text back as that object. *)
+Theorem C03_codec : forall m, wf (JObj m) -> parse_line (print (JObj m)) = Some (JObj m).
+Proof. exact parse_line_print. Qed.
+Print Assumptions C03_codec.
+
+(* What the parser returns always is such a tree (keys unique, all strings valid UTF-8). *)
+Theorem C03_parser_wf : forall l t, parse_line l = Some t -> nodup_keys t /\ strings_valid t.
+Proof. exact parse_line_wfp. Qed.
+Print Assumptions C03_parser_wf.
+
+(* Every emitted line, for ANY tables and flags without field-name redaction, encryption on or off:
+   the output text is one JSON object; it parses back to exactly the redacted tree of the input
+   line's tree, and that tree has the input tree's shape. Premises: the configured texts are valid
+   UTF-8 (command-line arguments are; the constants are checked below) and so is what the
+   encryption function returns (base64 text); pseudonyms are proved valid. *)
+Theorem C03_emitted_line : forall tb cs c enc l o,
+  eager c = nil ->
+  (valid_string (c_isodate cs) /\ valid_string (c_oid cs) /\ valid_string (c_uuid cs) /\ valid_string (c_email cs) /\ valid_string (repl c)) ->
+  (forall f s ct, enc = Some f -> f s = Some ct -> valid_string ct) ->
+  redact_line tb cs c enc l = Out o ->
+  exists t, parse_line l = Some t /\
+            parse_line o = Some (redact_tree tb cs c (real_actions cs c enc) t) /\
+            shape_of (redact_tree tb cs c (real_actions cs c enc) t) = shape_of t.
+Proof.
+  intros tb cs c enc l o He Hc Henc.
+  exact (emitted_parses_back tb cs c enc He Hc Henc (fun s => hash_name_valid (repl c) s (proj2 (proj2 (proj2 (proj2 Hc))))) l o).
+Qed.
+Print Assumptions C03_emitted_line.
+
+(* the regenerated constants are plain ASCII, hence valid *)
+Theorem C03_consts_valid :
+  valid_string (c_isodate current_consts) /\ valid_string (c_oid current_consts) /\ valid_string (c_uuid current_consts) /\
+  valid_string (c_email current_consts) /\ valid_string RedactedString.
+Proof. repeat split; apply all_ascii_valid; vm_compute; reflexivity. Qed.
+Print Assumptions C03_consts_valid.
+
+(* non-vacuity of the codec theorem: a tree with escapes, a 2-, 3- and 4-byte sequence, U+2028 *)
+Example C03_codec_example :
+  let s := String (ascii_of_nat 34) (String (ascii_of_nat 10) (String (ascii_of_nat 195) (String (ascii_of_nat 169)
+           (String (ascii_of_nat 226) (String (ascii_of_nat 128) (String (ascii_of_nat 168)
+           (String (ascii_of_nat 240) (String (ascii_of_nat 159) (String (ascii_of_nat 152) (String (ascii_of_nat 128) EmptyString)))))))))) in
+  parse_line (print (JObj (("k"%string, JArr (JStr s :: JNum "-1.5e+3"%string :: JNull :: nil)) :: nil))) =
+  Some (JObj (("k"%string, JArr (JStr s :: JNum "-1.5e+3"%string :: JNull :: nil)) :: nil)).
+Proof. vm_compute. reflexivity. Qed.
